@@ -166,8 +166,14 @@ def run_case(case):
     np_a = numpy.repeat(npg, len(xconfig)) if isinstance(npg, int) else numpy.array(npg, dtype=int)
     before = ring.snapshot(pg, META + ["mat", "taxa", "taxa_grp"])
     xc_before = xconfig.copy()
-    out = cls.mate(obj, pg, xconfig, nm if isinstance(nm, int) else nm_a.copy(),
-                   npg if isinstance(npg, int) else np_a.copy(), nself=case["nself"])
+    nm_arg = nm if isinstance(nm, int) else nm_a.copy()
+    np_arg = npg if isinstance(npg, int) else np_a.copy()
+    out = cls.mate(obj, pg, xconfig, nm_arg, np_arg, nself=case["nself"])
+    # the per-cross count arrays are the caller's: a breeding loop passes the same arrays to the next call
+    if not isinstance(nm, int) and not numpy.array_equal(nm_arg, nm_a):
+        return True, "mate() modified the caller's nmating array: %r -> %r" % (nm_a.tolist(), nm_arg.tolist())
+    if not isinstance(npg, int) and not numpy.array_equal(np_arg, np_a):
+        return True, "mate() modified the caller's nprogeny array: %r -> %r" % (np_a.tolist(), np_arg.tolist())
     per_cross = nm_a * np_a
     total = int(per_cross.sum())
     mat = out.mat
